@@ -1,5 +1,365 @@
-/- C08 — property theorems only. -/
+/-
+C08 — a GeoBox built from a region covers it and is snapped as requested.
+
+Property theorems only.  The one-axis results are those of `OdcGeo.Props.C20`
+(`snap_grid_*`), restated under the names of DESIGN.md §4 C08 and then lifted to
+`GeoBox.from_bbox` / `from_geopolygon`.  Standing hypotheses ("valid input"):
+`left ≤ right`, `bottom ≤ top`, resolution components `≠ 0`, anchor fractions in `[0, 1)`,
+`0 ≤ tol < 1/2`.  `g.xmin … g.ymax` is the world extent of the result.
+-/
 import OdcGeo.Model.C08
+import OdcGeo.Lemmas.C08
+import OdcGeo.Props.C20
+
 namespace OdcGeo.C08
+open OdcGeo.C20 (snapGrid gridLo gridHi)
+
+/-! ## one axis (`snap_grid`) -/
+
+theorem snap_n_pos {x0 x1 res tol : Rat} (off : Option Rat) (hr : res ≠ 0) (hx : x0 ≤ x1)
+    (hop : ∀ op, off = some op → 0 ≤ op ∧ op < 1) (ht : 0 ≤ tol) (ht2 : tol < 1 / 2) :
+    ∃ tx nx, snapGrid x0 x1 res off tol = .ok (tx, nx) ∧ 1 ≤ nx :=
+  C20.snap_grid_n_pos off hr hx hop ht ht2
+
+theorem snap_cover {x0 x1 res tol tx : Rat} {nx : Int} (off : Option Rat) (hr : res ≠ 0)
+    (hx : x0 ≤ x1) (hop : ∀ op, off = some op → 0 ≤ op ∧ op < 1) (ht : 0 ≤ tol) (ht2 : tol < 1 / 2)
+    (h : snapGrid x0 x1 res off tol = .ok (tx, nx)) :
+    gridLo res tx nx ≤ x0 + tol * |res| ∧ x1 - tol * |res| ≤ gridHi res tx nx :=
+  C20.snap_grid_cover off hr hx hop ht ht2 h
+
+/-- Strict bound; the side condition excludes only the zero-width interval with `tol = 0`
+(`C20.snap_grid_minimal_degenerate` shows equality there; `snap_minimal_le` has no condition). -/
+theorem snap_minimal {x0 x1 res tol tx : Rat} {nx : Int} (off : Option Rat) (hr : res ≠ 0)
+    (hx : x0 ≤ x1) (hop : ∀ op, off = some op → 0 ≤ op ∧ op < 1) (ht : 0 ≤ tol) (ht2 : tol < 1 / 2)
+    (hs : 0 < tol ∨ x0 < x1) (h : snapGrid x0 x1 res off tol = .ok (tx, nx)) :
+    x0 - gridLo res tx nx < |res| * (1 + tol) ∧ gridHi res tx nx - x1 < |res| * (1 + tol) :=
+  C20.snap_grid_minimal off hr hx hop ht ht2 hs h
+
+theorem snap_minimal_le {x0 x1 res tol tx : Rat} {nx : Int} (off : Option Rat) (hr : res ≠ 0)
+    (hx : x0 ≤ x1) (hop : ∀ op, off = some op → 0 ≤ op ∧ op < 1) (ht : 0 ≤ tol) (ht2 : tol < 1 / 2)
+    (h : snapGrid x0 x1 res off tol = .ok (tx, nx)) :
+    x0 - gridLo res tx nx ≤ |res| * (1 + tol) ∧ gridHi res tx nx - x1 ≤ |res| * (1 + tol) :=
+  C20.snap_grid_minimal_le off hr hx hop ht ht2 h
+
+theorem snap_aligned {x0 x1 res tol tx op : Rat} {nx : Int} (hr : res ≠ 0)
+    (hx : x0 ≤ x1) (hop : 0 ≤ op ∧ op < 1) (ht : 0 ≤ tol) (ht2 : tol < 1 / 2)
+    (h : snapGrid x0 x1 res (some op) tol = .ok (tx, nx)) :
+    ∃ i : Int, (gridLo res tx nx - op * |res|) / |res| = i ∧
+      (gridHi res tx nx - op * |res|) / |res| = ((i + nx : Int) : Rat) :=
+  C20.snap_grid_aligned hr hx hop ht ht2 h
+
+theorem snap_none_exact {x0 x1 res tol tx : Rat} {nx : Int} (hr : res ≠ 0) (hx : x0 ≤ x1)
+    (ht : 0 ≤ tol) (h : snapGrid x0 x1 res none tol = .ok (tx, nx)) :
+    tx = if 0 < res then x0 else x1 :=
+  C20.snap_grid_none_exact hr hx ht h
+
+/-! ## anchors -/
+
+/-- `_norm_anchor` followed by the choice of snap offsets: edge ↦ 0, centre ↦ ½, a number `v`
+↦ `(v, v)` (also for `0` and `0.5`, which go through the enum), an `XY` ↦ itself (per axis),
+floating / tight ↦ no snapping; `"default"` is edge, `"centre"` is `"center"`. -/
+theorem anchor_table (v x y : Rat) :
+    snapOf false (normAnchor (.val .edge)) = some (0, 0) ∧
+    snapOf false (normAnchor (.val .center)) = some (1 / 2, 1 / 2) ∧
+    snapOf false (normAnchor (.num v)) = some (v, v) ∧
+    snapOf false (normAnchor (.val (.xy x y))) = some (x, y) ∧
+    snapOf false (normAnchor (.val .floating)) = none ∧
+    snapOf false (normAnchor (.name .default)) = some (0, 0) ∧
+    snapOf false (normAnchor (.name .edge)) = some (0, 0) ∧
+    snapOf false (normAnchor (.name .center)) = some (1 / 2, 1 / 2) ∧
+    snapOf false (normAnchor (.name .centre)) = some (1 / 2, 1 / 2) ∧
+    snapOf false (normAnchor (.name .floating)) = none := by
+  refine ⟨rfl, rfl, ?_, rfl, rfl, rfl, rfl, rfl, rfl, rfl⟩
+  show snapOf false (if v = 0 then Anchor.edge else if v = 1 / 2 then Anchor.center else Anchor.xy v v) = some (v, v)
+  by_cases h0 : v = 0
+  · rw [if_pos h0, h0]; rfl
+  · rw [if_neg h0]
+    by_cases h1 : v = 1 / 2
+    · rw [if_pos h1, h1]; rfl
+    · rw [if_neg h1]; rfl
+
+/-- `tight=True` turns snapping off whatever the anchor. -/
+theorem tight_is_floating (a : AnchorArg) : snapOf true (normAnchor a) = none := rfl
+
+/-! ## resolution-driven construction -/
+
+/-! `ValidRes bb rx ry tol snap` (defined in `Lemmas/C08.lean`) bundles the standing hypotheses:
+`left ≤ right`, `bottom ≤ top`, `rx ≠ 0`, `ry ≠ 0`, `0 ≤ tol < 1/2`, anchor fractions in `[0,1)`. -/
+
+section res
+variable {bb : BBox} {tight : Bool} {shape : ShapeArg} {res : ResArg} {anchor : AnchorArg}
+  {tol rx ry : Rat} {g : GeoBox}
+
+/-- On valid input the construction succeeds, with at least one pixel per axis. -/
+theorem from_bbox_res_total (hs : ∀ n, shape ≠ .int n) (hres : res.xy? = some (rx, ry))
+    (v : ValidRes bb rx ry tol (snapOf tight (normAnchor anchor))) :
+    ∃ g, fromBbox bb tight shape res anchor tol = .ok g ∧ 1 ≤ g.nx ∧ 1 ≤ g.ny := by
+  obtain ⟨tx, nx, h1, hn1⟩ := C20.snap_grid_n_pos _ v.hrx v.hx v.hopx v.ht v.ht2
+  obtain ⟨ty, ny, h2, hn2⟩ := C20.snap_grid_n_pos _ v.hry v.hy v.hopy v.ht v.ht2
+  refine ⟨⟨ny, nx, Aff.translation tx ty * Aff.scale rx ry⟩, ?_, hn1, hn2⟩
+  rw [fromBbox_res_eq hs hres, h1, h2]
+  rfl
+
+/-- **Pixel size and orientation**: `affine = T(offx, offy)·S(rx, ry)`, exactly the requested
+size and sign per axis, no rotation. -/
+theorem from_bbox_res_pixel_size (hs : ∀ n, shape ≠ .int n) (hres : res.xy? = some (rx, ry))
+    (h : fromBbox bb tight shape res anchor tol = .ok g) :
+    g.affine = Aff.translation g.affine.c g.affine.f * Aff.scale rx ry ∧
+      g.affine.a = rx ∧ g.affine.e = ry ∧ g.affine.b = 0 ∧ g.affine.d = 0 := by
+  obtain ⟨ox, oy, _, _, ha⟩ := fromBbox_res_inv hs hres h
+  rw [ts_eq, ha]
+  exact ⟨rfl, rfl, rfl, rfl, rfl⟩
+
+/-- one-axis facts transported to the geobox extent -/
+theorem from_bbox_res_axes (hs : ∀ n, shape ≠ .int n) (hres : res.xy? = some (rx, ry))
+    (v : ValidRes bb rx ry tol (snapOf tight (normAnchor anchor)))
+    (h : fromBbox bb tight shape res anchor tol = .ok g) :
+    snapGrid bb.left bb.right rx ((snapOf tight (normAnchor anchor)).map (·.1)) tol = .ok (g.affine.c, g.nx) ∧
+    snapGrid bb.bottom bb.top ry ((snapOf tight (normAnchor anchor)).map (·.2)) tol = .ok (g.affine.f, g.ny) ∧
+    g.xmin = gridLo rx g.affine.c g.nx ∧ g.xmax = gridHi rx g.affine.c g.nx ∧
+    g.ymin = gridLo ry g.affine.f g.ny ∧ g.ymax = gridHi ry g.affine.f g.ny := by
+  obtain ⟨ox, oy, h1, h2, ha⟩ := fromBbox_res_inv hs hres h
+  obtain ⟨_, _, h1', hn1⟩ := C20.snap_grid_n_pos _ v.hrx v.hx v.hopx v.ht v.ht2
+  obtain ⟨_, _, h2', hn2⟩ := C20.snap_grid_n_pos _ v.hry v.hy v.hopy v.ht v.ht2
+  rw [h1] at h1'; cases h1'
+  rw [h2] at h2'; cases h2'
+  simp only [GeoBox.xmin, GeoBox.xmax, GeoBox.ymin, GeoBox.ymax, ha]
+  exact ⟨h1, h2, min_eq_gridLo _ _ _ (by omega), max_eq_gridHi _ _ _ (by omega),
+    min_eq_gridLo _ _ _ (by omega), max_eq_gridHi _ _ _ (by omega)⟩
+
+/-- **Covers** the whole region except at most `tol` of a pixel per side. -/
+theorem from_bbox_res_covers (hs : ∀ n, shape ≠ .int n) (hres : res.xy? = some (rx, ry))
+    (v : ValidRes bb rx ry tol (snapOf tight (normAnchor anchor)))
+    (h : fromBbox bb tight shape res anchor tol = .ok g) :
+    g.xmin ≤ bb.left + tol * |rx| ∧ bb.right - tol * |rx| ≤ g.xmax ∧
+    g.ymin ≤ bb.bottom + tol * |ry| ∧ bb.top - tol * |ry| ≤ g.ymax := by
+  obtain ⟨h1, h2, e1, e2, e3, e4⟩ := from_bbox_res_axes hs hres v h
+  have cx := C20.snap_grid_cover _ v.hrx v.hx v.hopx v.ht v.ht2 h1
+  have cy := C20.snap_grid_cover _ v.hry v.hy v.hopy v.ht v.ht2 h2
+  rw [e1, e2, e3, e4]
+  exact ⟨cx.1, cx.2, cy.1, cy.2⟩
+
+/-- **Minimal**: less than one pixel (plus `tol`) larger than necessary on any side. -/
+theorem from_bbox_res_minimal (hs : ∀ n, shape ≠ .int n) (hres : res.xy? = some (rx, ry))
+    (v : ValidRes bb rx ry tol (snapOf tight (normAnchor anchor)))
+    (hsx : 0 < tol ∨ bb.left < bb.right) (hsy : 0 < tol ∨ bb.bottom < bb.top)
+    (h : fromBbox bb tight shape res anchor tol = .ok g) :
+    bb.left - g.xmin < |rx| * (1 + tol) ∧ g.xmax - bb.right < |rx| * (1 + tol) ∧
+    bb.bottom - g.ymin < |ry| * (1 + tol) ∧ g.ymax - bb.top < |ry| * (1 + tol) := by
+  obtain ⟨h1, h2, e1, e2, e3, e4⟩ := from_bbox_res_axes hs hres v h
+  have cx := C20.snap_grid_minimal _ v.hrx v.hx v.hopx v.ht v.ht2 hsx h1
+  have cy := C20.snap_grid_minimal _ v.hry v.hy v.hopy v.ht v.ht2 hsy h2
+  rw [e1, e2, e3, e4]
+  exact ⟨cx.1, cx.2, cy.1, cy.2⟩
+
+/-- Non-strict version without side condition (covers zero-width regions with `tol = 0`). -/
+theorem from_bbox_res_minimal_le (hs : ∀ n, shape ≠ .int n) (hres : res.xy? = some (rx, ry))
+    (v : ValidRes bb rx ry tol (snapOf tight (normAnchor anchor)))
+    (h : fromBbox bb tight shape res anchor tol = .ok g) :
+    bb.left - g.xmin ≤ |rx| * (1 + tol) ∧ g.xmax - bb.right ≤ |rx| * (1 + tol) ∧
+    bb.bottom - g.ymin ≤ |ry| * (1 + tol) ∧ g.ymax - bb.top ≤ |ry| * (1 + tol) := by
+  obtain ⟨h1, h2, e1, e2, e3, e4⟩ := from_bbox_res_axes hs hres v h
+  have cx := C20.snap_grid_minimal_le _ v.hrx v.hx v.hopx v.ht v.ht2 h1
+  have cy := C20.snap_grid_minimal_le _ v.hry v.hy v.hopy v.ht v.ht2 h2
+  rw [e1, e2, e3, e4]
+  exact ⟨cx.1, cx.2, cy.1, cy.2⟩
+
+/-- **Aligned**: pixel edges are offset from the CRS origin by exactly the anchor fraction of a
+pixel, per axis (`sx = sy = 0` edge, `½` centre, anything in `[0,1)` otherwise). -/
+theorem from_bbox_res_aligned (hs : ∀ n, shape ≠ .int n) (hres : res.xy? = some (rx, ry))
+    (v : ValidRes bb rx ry tol (snapOf tight (normAnchor anchor))) {sx sy : Rat}
+    (hsn : snapOf tight (normAnchor anchor) = some (sx, sy))
+    (h : fromBbox bb tight shape res anchor tol = .ok g) :
+    ∃ i j : Int, (g.xmin - sx * |rx|) / |rx| = i ∧ (g.xmax - sx * |rx|) / |rx| = ((i + g.nx : Int) : Rat) ∧
+      (g.ymin - sy * |ry|) / |ry| = j ∧ (g.ymax - sy * |ry|) / |ry| = ((j + g.ny : Int) : Rat) := by
+  obtain ⟨h1, h2, e1, e2, e3, e4⟩ := from_bbox_res_axes hs hres v h
+  have hs' := v.hsnap (sx, sy) hsn
+  rw [hsn] at h1 h2
+  obtain ⟨i, hi1, hi2⟩ := C20.snap_grid_aligned v.hrx v.hx hs'.1 v.ht v.ht2 h1
+  obtain ⟨j, hj1, hj2⟩ := C20.snap_grid_aligned v.hry v.hy hs'.2 v.ht v.ht2 h2
+  rw [e1, e2, e3, e4]
+  exact ⟨i, j, hi1, hi2, hj1, hj2⟩
+
+/-- **Floating / tight**: the origin is the region's corner on the side the axis starts from. -/
+theorem from_bbox_res_floating_exact (hs : ∀ n, shape ≠ .int n) (hres : res.xy? = some (rx, ry))
+    (v : ValidRes bb rx ry tol (snapOf tight (normAnchor anchor)))
+    (hsn : snapOf tight (normAnchor anchor) = none)
+    (h : fromBbox bb tight shape res anchor tol = .ok g) :
+    g.affine.c = (if 0 < rx then bb.left else bb.right) ∧
+      g.affine.f = (if 0 < ry then bb.bottom else bb.top) := by
+  obtain ⟨h1, h2, _⟩ := from_bbox_res_axes hs hres v h
+  rw [hsn] at h1 h2
+  exact ⟨C20.snap_grid_none_exact v.hrx v.hx v.ht h1, C20.snap_grid_none_exact v.hry v.hy v.ht h2⟩
+
+end res
+
+/-- A single-number `shape=n` is the resolution branch with the square pixel
+`longest side / n` (and north-up orientation); it overrides `resolution=`. -/
+theorem from_bbox_int_shape_reduces (bb : BBox) (tight : Bool) (n : Int) (res : ResArg)
+    (anchor : AnchorArg) (tol : Rat) (hy : bb.spanY ≠ 0) (hn : n ≠ 0) :
+    fromBbox bb tight (.int n) res anchor tol =
+      fromBbox bb tight .none
+        (.scalar (if bb.spanX / bb.spanY > 1 then bb.spanX / n else bb.spanY / n)) anchor tol := by
+  unfold fromBbox
+  simp only [intShapeToRes, if_neg hy, if_neg hn]
+  split <;> rfl
+
+/-! ## shape-driven construction -/
+
+section shape
+variable {bb : BBox} {tight : Bool} {anchor : AnchorArg} {tol : Rat} {ny nx : Int} {g : GeoBox}
+
+/-- **Exact shape** and **pixel size = span / shape** (north-up), snapping or not. -/
+theorem from_bbox_shape_exact_shape (hnx : nx ≠ 0) (hny : ny ≠ 0)
+    (h : fromBbox bb tight (.yx ny nx) .none anchor tol = .ok g) :
+    g.ny = ny ∧ g.nx = nx ∧ g.affine.a = bb.spanX / nx ∧ g.affine.e = -bb.spanY / ny ∧
+      g.affine.b = 0 ∧ g.affine.d = 0 := by
+  cases hsn : snapOf tight (normAnchor anchor) with
+  | none =>
+    rw [fromBbox_shape_float_eq hnx hny hsn, ts_eq] at h
+    have := Except.ok.inj h; subst this
+    exact ⟨rfl, rfl, rfl, rfl, rfl, rfl⟩
+  | some s =>
+    obtain ⟨ox, oy, n1, n2, _, _, hg⟩ := fromBbox_shape_snap_inv hnx hny (sx := s.1) (sy := s.2) hsn h
+    subst hg
+    exact ⟨rfl, rfl, rfl, rfl, rfl, rfl⟩
+
+theorem from_bbox_shape_pixel_size (hnx : nx ≠ 0) (hny : ny ≠ 0)
+    (h : fromBbox bb tight (.yx ny nx) .none anchor tol = .ok g) :
+    g.affine = Aff.translation g.affine.c g.affine.f * Aff.scale (bb.spanX / nx) (-bb.spanY / ny) := by
+  obtain ⟨_, _, h1, h2, h3, h4⟩ := from_bbox_shape_exact_shape hnx hny h
+  rw [ts_eq]
+  cases hg : g.affine
+  simp_all
+
+/-- **Floating / tight**: the result is exactly the region. -/
+theorem from_bbox_shape_floating_exact (hnx : 0 < nx) (hny : 0 < ny)
+    (hx : bb.left ≤ bb.right) (hy : bb.bottom ≤ bb.top)
+    (hsn : snapOf tight (normAnchor anchor) = none)
+    (h : fromBbox bb tight (.yx ny nx) .none anchor tol = .ok g) :
+    g.xmin = bb.left ∧ g.xmax = bb.right ∧ g.ymin = bb.bottom ∧ g.ymax = bb.top := by
+  rw [fromBbox_shape_float_eq (by omega) (by omega) hsn, ts_eq] at h
+  have := Except.ok.inj h; subst this
+  have hnx' : (0 : Rat) < nx := by exact_mod_cast hnx
+  have hny' : (0 : Rat) < ny := by exact_mod_cast hny
+  have e1 : (nx : Rat) * (bb.spanX / nx) = bb.right - bb.left := by unfold BBox.spanX; field_simp
+  have e2 : (ny : Rat) * (-bb.spanY / ny) = -(bb.top - bb.bottom) := by unfold BBox.spanY; field_simp
+  simp only [GeoBox.xmin, GeoBox.xmax, GeoBox.ymin, GeoBox.ymax, e1, e2]
+  refine ⟨min_eq_left (by linarith), ?_, ?_, max_eq_left (by linarith)⟩
+  · rw [max_eq_right (by linarith)]; ring
+  · rw [min_eq_right (by linarith)]; ring
+
+/-- **Snapped**: the result is the region translated by less than one pixel per axis
+(at most `tol` of a pixel inwards), and its pixel edges sit at the anchor fraction.
+`rx`, `ry` are the (positive) pixel sizes `span / shape`. -/
+theorem from_bbox_shape_displacement (hnx : 0 < nx) (hny : 0 < ny)
+    (hx : bb.left < bb.right) (hy : bb.bottom < bb.top) (ht : 0 ≤ tol) (ht2 : tol < 1 / 2)
+    {sx sy : Rat} (hsn : snapOf tight (normAnchor anchor) = some (sx, sy))
+    (hsx : 0 ≤ sx ∧ sx < 1) (hsy : 0 ≤ sy ∧ sy < 1)
+    (rx ry : Rat) (hrxd : rx = bb.spanX / nx) (hryd : ry = bb.spanY / ny)
+    (h : fromBbox bb tight (.yx ny nx) .none anchor tol = .ok g) :
+    (g.xmin = g.affine.c ∧ g.xmax = g.affine.c + bb.spanX ∧
+      g.ymax = g.affine.f ∧ g.ymin = g.affine.f - bb.spanY) ∧
+    (-(tol * rx) ≤ bb.left - g.affine.c ∧ bb.left - g.affine.c < rx) ∧
+    (-(tol * ry) ≤ g.affine.f - bb.top ∧ g.affine.f - bb.top < ry) ∧
+    (∃ i j : Int, (g.affine.c - sx * rx) / rx = i ∧ (g.affine.f - sy * ry) / ry = j) := by
+  have hnx' : (0 : Rat) < nx := by exact_mod_cast hnx
+  have hny' : (0 : Rat) < ny := by exact_mod_cast hny
+  have hspx : 0 < bb.spanX := by unfold BBox.spanX; linarith
+  have hspy : 0 < bb.spanY := by unfold BBox.spanY; linarith
+  have hrx : 0 < rx := by rw [hrxd]; exact div_pos hspx hnx'
+  have hry : 0 < ry := by rw [hryd]; exact div_pos hspy hny'
+  have hry' : -bb.spanY / ny = -ry := by rw [hryd]; ring
+  obtain ⟨ox, oy, n1, n2, h1, h2, hg⟩ := fromBbox_shape_snap_inv (by omega) (by omega) hsn h
+  subst hg
+  rw [hry'] at h2
+  rw [← hrxd] at h1
+  have e1 : (nx : Rat) * rx = bb.spanX := by rw [hrxd]; field_simp
+  have e2 : (ny : Rat) * ry = bb.spanY := by rw [hryd]; field_simp
+  -- x axis: positive resolution, lower edge is the origin
+  obtain ⟨i, n, t, hx', _, lo1, hi1, c1, m1, _, _, _, _⟩ :=
+    C20.snapGrid_some_spec (ne_of_gt hrx) hx.le hsx ht ht2 (x0 := bb.left) (x1 := bb.right)
+  rw [h1] at hx'; cases hx'
+  simp only [gridLo, if_pos hrx, abs_of_pos hrx] at lo1 c1 m1
+  -- y axis: negative resolution, upper edge is the origin; the span is ny ≥ 1 pixels wide
+  have hwide : ry ≤ bb.top - bb.bottom := by
+    have : (1 : Rat) ≤ ny := by exact_mod_cast hny
+    have : ry ≤ ny * ry := by nlinarith
+    unfold BBox.spanY at e2; linarith
+  obtain ⟨j, m, u, hy', _, lo2, hi2, _, _, c2, _, _, w2⟩ :=
+    C20.snapGrid_some_spec (neg_ne_zero.mpr (ne_of_gt hry)) hy.le hsy ht ht2 (x0 := bb.bottom) (x1 := bb.top)
+  rw [h2] at hy'; cases hy'
+  have hneg : ¬ (0 : Rat) < -ry := by linarith
+  simp only [gridHi, if_neg hneg, abs_neg, abs_of_pos hry] at hi2 c2 w2
+  have w2' := w2 hwide
+  have ex : (nx : Rat) * (bb.spanX / nx) = bb.spanX := by rw [← hrxd]; exact e1
+  have ey : (ny : Rat) * (-bb.spanY / ny) = -bb.spanY := by rw [hry']; linarith
+  refine ⟨⟨?_, ?_, ?_, ?_⟩, ⟨by simp only; linarith, by simp only; exact m1⟩,
+    ⟨by simp only; linarith, by simp only; exact w2'⟩, ⟨i, j + n2, ?_, ?_⟩⟩
+  · simp only [GeoBox.xmin, ex]; exact min_eq_left (by linarith)
+  · simp only [GeoBox.xmax, ex]; exact max_eq_right (by linarith)
+  · simp only [GeoBox.ymax, ey]; exact max_eq_left (by linarith)
+  · simp only [GeoBox.ymin, ey]; rw [min_eq_right (by linarith)]; ring
+  · simp only; rw [lo1]; field_simp; ring
+  · simp only; rw [hi2]; push_cast; field_simp; ring
+
+end shape
+
+/-! ## polygon variant -/
+
+/-- The bounding box of the vertex list contains every vertex. -/
+theorem bbox_of_pts_contains (p : Rat × Rat) (ps : List (Rat × Rat)) :
+    ∀ q ∈ p :: ps, (bboxOfPts p ps).left ≤ q.1 ∧ q.1 ≤ (bboxOfPts p ps).right ∧
+      (bboxOfPts p ps).bottom ≤ q.2 ∧ q.2 ≤ (bboxOfPts p ps).top := by
+  intro q hq
+  have a := foldl_min_le' (·.1) ps p.1
+  have b := foldl_min_le' (·.2) ps p.2
+  have c := le_foldl_max' (·.1) ps p.1
+  have d := le_foldl_max' (·.2) ps p.2
+  rcases List.mem_cons.mp hq with rfl | hq
+  · exact ⟨a.1, c.1, b.1, d.1⟩
+  · exact ⟨a.2 q hq, c.2 q hq, b.2 q hq, d.2 q hq⟩
+
+/-- `from_geopolygon` is `from_bbox` of the polygon's bounding box; the deprecated `align=`
+(in CRS units) becomes the per-axis anchor `align / |resolution|`, `(0,0)` becomes edge. -/
+theorem from_geopolygon_reduces_to_bbox (p : Rat × Rat) (ps : List (Rat × Rat)) (res : ResArg)
+    (shape : ShapeArg) (tight : Bool) (anchor : AnchorArg) (tol : Rat) :
+    fromGeopolygon p ps res none shape tight anchor tol =
+        fromBbox (bboxOfPts p ps) tight shape res anchor tol ∧
+    fromGeopolygon p ps res (some (0, 0)) shape tight anchor tol =
+        fromBbox (bboxOfPts p ps) tight shape res (.val .edge) tol ∧
+    (∀ ax ay rx ry, ¬ (ax = 0 ∧ ay = 0) → res.xy? = some (rx, ry) → rx ≠ 0 → ry ≠ 0 →
+      fromGeopolygon p ps res (some (ax, ay)) shape tight anchor tol =
+        fromBbox (bboxOfPts p ps) tight shape (.xy rx ry) (.val (.xy (ax / |rx|) (ay / |ry|))) tol) := by
+  refine ⟨rfl, ?_, ?_⟩
+  · simp [fromGeopolygon, alignToAnchor, bind, Except.bind]
+  · intro ax ay rx ry h0 hres hrx hry
+    have : ¬ (rx = 0 ∨ ry = 0) := by tauto
+    simp only [fromGeopolygon, alignToAnchor, if_neg h0, hres, if_neg this, bind, Except.bind,
+      C20.rabs_eq_abs]
+
+/-- Every vertex of the polygon lies within the resulting geobox up to `tol` of a pixel. -/
+theorem from_geopolygon_covers_vertices (p : Rat × Rat) (ps : List (Rat × Rat)) {res : ResArg}
+    {shape : ShapeArg} {tight : Bool} {anchor : AnchorArg} {tol rx ry : Rat} {g : GeoBox}
+    (hs : ∀ n, shape ≠ .int n) (hres : res.xy? = some (rx, ry))
+    (v : ValidRes (bboxOfPts p ps) rx ry tol (snapOf tight (normAnchor anchor)))
+    (h : fromGeopolygon p ps res none shape tight anchor tol = .ok g) :
+    ∀ q ∈ p :: ps, g.xmin - tol * |rx| ≤ q.1 ∧ q.1 ≤ g.xmax + tol * |rx| ∧
+      g.ymin - tol * |ry| ≤ q.2 ∧ q.2 ≤ g.ymax + tol * |ry| := by
+  rw [(from_geopolygon_reduces_to_bbox p ps res shape tight anchor tol).1] at h
+  obtain ⟨c1, c2, c3, c4⟩ := from_bbox_res_covers hs hres v h
+  intro q hq
+  obtain ⟨b1, b2, b3, b4⟩ := bbox_of_pts_contains p ps q hq
+  exact ⟨by linarith, by linarith, by linarith, by linarith⟩
+
+/-! ## non-vacuity -/
+
+example : fromBbox ⟨0, 0, 10, 7⟩ false .none (.scalar 3) (.name .default) (1 / 100) =
+    .ok ⟨3, 4, ⟨3, 0, 0, 0, -3, 9⟩⟩ := by decide +kernel
+example : ValidRes ⟨0, 0, 10, 7⟩ 3 (-3) (1 / 100) (snapOf false (normAnchor (.name .default))) :=
+  ⟨by norm_num, by norm_num, by norm_num, by norm_num, by norm_num, by norm_num,
+   by intro s hs; cases hs; norm_num⟩
+example : fromBbox ⟨0, 0, 10, 7⟩ false (.yx 7 5) .none (.val .center) (1 / 100) =
+    .ok ⟨7, 5, ⟨2, 0, -1, 0, -1, 15 / 2⟩⟩ := by decide +kernel
 
 end OdcGeo.C08
